@@ -597,8 +597,9 @@ pub fn check_c03(c: &Case) -> Check {
     let m0 = Model::new(c);
     let ont = build(c, false)?;
     check_c03_on(&m0, &ont)?;
-    // construction path "binary file": the only one that can mark terms obsolete (needs the two standard roots: id map 0)
-    if c.n >= 2 && c.edges & 1 == 1 {
+    // construction path "binary file": the only one that can mark terms obsolete (needs the two standard roots: id map 0);
+    // on graphs up to 4 terms (the 5-term graphs of the thorough tier would spend ten minutes here)
+    if c.n >= 2 && c.n <= 4 && c.edges & 1 == 1 {
         let c0 = Case { idmap: 0, ..c.clone() };
         let m0 = Model::new(&c0);
         let mut patterns: Vec<Vec<(bool, u32)>> = vec![vec![(false, 0); c.n], vec![(true, 0); c.n]];
@@ -1238,6 +1239,11 @@ pub fn check_c07(c: &Case) -> Check {
     }
     let o = build(c, true)?;
     let o2 = c07_round_trip(&o, true)?;
+    // (the two additions below run on graphs up to 4 terms: on the 5-term graphs of the thorough tier they would take a
+    // quarter of an hour)
+    if c.n > 4 {
+        return Ok(());
+    }
     // record ids at the upper border of u32
     if !c.facts.is_empty() {
         let mut cb = c.clone();
